@@ -206,6 +206,11 @@ func (r *rewriter) rewriteFile() {
 			case r.pkgSel(n.Fun, "runtime", "NumCPU"):
 				n.Fun = vs("NumCPU")
 				r.count++
+			case r.pkgSel(n.Fun, "runtime", "GOMAXPROCS") && len(n.Args) == 1 && isZeroLit(n.Args[0]):
+				// a query of the number of usable CPUs: the same environment answer as NumCPU
+				n.Fun = vs("NumCPU")
+				n.Args = nil
+				r.count++
 			case r.pkgSel(n.Fun, "os", "Open"):
 				n.Fun = vs("Open")
 				r.count++
@@ -255,6 +260,11 @@ func (r *rewriter) rewriteFile() {
 	if !usesPkgIdent(r.file, "atomic") {
 		astutil.DeleteImport(r.fset, r.file, "sync/atomic")
 	}
+}
+
+func isZeroLit(e ast.Expr) bool {
+	l, ok := e.(*ast.BasicLit)
+	return ok && l.Value == "0"
 }
 
 func isVsSel(e ast.Expr, name string) bool {
